@@ -163,6 +163,27 @@ def add_content_whitespace(rng, r, eol):
             x["s"] = rng.choice([x["s"] + mid + "z" + x["s"], mid + x["s"], x["s"] + mid, "<pre>" + x["s"] + mid + "q</pre>" if x["k"] != "text" else x["s"] + mid + "q"])
 
 
+def check_after_mutations(ctx, r, indent, eol):
+    """Render, change the tree through the public API (same number of children or not), render again: the three rules hold
+    for the changed tree (nothing remembered from the first rendering)."""
+    from ..mutate import mutate_pair
+
+    r = gen.unshare(r)
+    live = gen.build_root(r)
+    live.get_html_string(indent, eol)
+    log = []
+    for _ in range(ctx.rng.randint(1, 4)):
+        m = mutate_pair(ctx.rng, live, r, benign=True)
+        if m:
+            log.append(m)
+            live.get_html_string(indent, eol)
+    if not log:
+        return True
+    out = live.get_html_string(indent, eol)
+    ctx.count("oracle.after_mutation")
+    return check_output(ctx, r, out, {"recipe_after_mutation": r, "mutations": log, "indent": indent, "eol": eol, "output": out[:1200]})
+
+
 def check_saved_inline(ctx, r, scratch):
     """The file written by save_html carries inline content unchanged (content may hold CR, FF, NEL, LS, PS ... itself)."""
     import locale
@@ -208,6 +229,16 @@ def check_dependency_heads(ctx, heads, via):
             out = ht.HTMLTextDocument("<html><head>@@D@@</head><body>b</body></html>", deps=deps, deps_replace_pattern="@@D@@").render()["html"]
         elif via == "document":
             out = ht.HTMLDocument(ht.div("b", *deps)).render()["html"]
+        elif via == "as_dict":
+            # each dependency's own head markup as reported by as_dict()
+            for d_, h in zip(deps, heads):
+                want_one = "".join(layout.inline_str(c) for c in h)
+                got_one = d_.as_dict()["head"]
+                if want_one not in (got_one or ""):
+                    ctx.violation("whitespace-between-inline-siblings", "as_dict()['head'] does not carry the inline head content contiguously",
+                                  dict(wit, expected=want_one[:300], output=(got_one or "")[:600]))
+                    return False
+            return True
         else:
             out = ht.TagList(*[d.as_html_tags() for d in deps]).get_html_string(2)
     except Exception as e:
@@ -222,6 +253,8 @@ def check_dependency_heads(ctx, heads, via):
 
 
 def replay(ctx, w):
+    if "recipe_after_mutation" in w:
+        return
     if "dependency_heads" in w:
         return check_dependency_heads(ctx, w["dependency_heads"], w["via"])
     check_case(ctx, w["recipe"], w["indent"], w["eol"], w.get("content_ws", False))
@@ -288,7 +321,7 @@ def _run(ctx):
             if rng.random() < 0.3:
                 h.append({"k": "text", "s": ids.next("b") + rng.choice(["\\n", "\\t\\1", "\\g<0>", " sp ", "x\ny"])})
             heads.append(h)
-        via = rng.choice(["textdoc", "document", "as_html_tags"])
+        via = rng.choice(["textdoc", "document", "as_html_tags", "as_dict"])
         ctx.guard(check_dependency_heads, ctx, heads, via, witness={"dependency_heads": heads, "via": via})
         ctx.case(("heads", heads, via), nontrivial=len(heads) >= 2)
     for _ in range(ctx.budget(60, 6000)):
@@ -327,6 +360,8 @@ def _run(ctx):
         if cws:
             add_content_whitespace(rng, r, eol)
         check_case(ctx, r, indent, eol, cws)
+        if r["k"] == "tag" and not cws and rng.random() < 0.15:
+            ctx.guard(check_after_mutations, ctx, r, indent, eol, witness={"recipe": r, "indent": indent, "eol": eol})
         ctx.case((r, indent, eol), nontrivial=nontrivial(r))
         for x in gen.walk(r):
             if x["k"] == "tag" and not x["ws"] and any(c["k"] == "tag" and c["ws"] for c in x["c"]):
